@@ -4,7 +4,7 @@
 //   (adjacent / gap / order of arrival / node-full boundary) is enumerated by the solver while absolute offsets stay symbolic;
 //   data bytes of small writes are symbolic. After every operation the store is probed byte by byte, at the end every range of
 //   the window is queried (hasContigousContentRange) and read (copy).
-// c49_sparse: every write offset, the release offset and the probe/read offsets are independent symbolic 64-bit values.
+// c49_sparse: every write offset, the release offset and the probe/read offset are independent symbolic values in [0, 3 pages + 16].
 // Assumed (caller contract of stmem.cc): writes do not overlap data that is present; copy() is asked for a non-empty range whose
 //   first byte is present (mem_hdr::copy() fatal_dump()s otherwise: "we shouldn't ever ask for absent offsets").
 #include "squid.h"
@@ -95,19 +95,29 @@ struct World {
     }
 };
 
-static int64_t anyBase() { const uint64_t b = vf_nondet_u64("base"); vf_assume(b <= ((uint64_t)1 << 40)); return (int64_t)b; }
 
 #ifdef VF_THOROUGH
-#define WINDOW 6
-#define MAXLEN 3
+#define NBASES 3
+#define WINDOW 5
+#define MAXLEN 2
 #define STEPS 4
 #define PSTEPS 3
+#define SITES 6
+#define TREE_WRITES 5
+#define TREE_OPS 2
 #else
+#define NBASES 2
 #define WINDOW 5
 #define MAXLEN 2
 #define STEPS 3
 #define PSTEPS 2
+#define SITES 5
+#define TREE_WRITES 4
+#define TREE_OPS 2
 #endif
+
+// the base offset of the window: case-split over representatives (the code only looks at differences of offsets, at offset > 0 and >= 0)
+static int64_t anyBase() { static const int64_t bases[] = {0, 1, 3 * PAGE + 5, ((int64_t)1 << 40) + 7}; return bases[pick(NBASES, "base")]; }
 
 // small writes / releases inside a window of a few bytes at a symbolic base offset
 extern "C" void c49_window(void)
@@ -136,11 +146,34 @@ extern "C" void c49_page(void)
     WITNESS_POINT();
 }
 
+// splay shapes: single-byte nodes at the even positions 0,2,..,2*(SITES-1); TREE_WRITES of them are written in any order, then
+// TREE_OPS operations, each a one-byte presence query, a freeDataUpto() or another write; then every range is queried and read.
+// (c49_window probes all positions in ascending order after every step, which always leaves the same left-leaning tree.)
+extern "C" void c49_tree(void)
+{
+    vf_quiet();
+    static World w;
+    w.base = 1; w.w0 = 0; w.wn = 2 * SITES;
+    for (int i = 0; i < TREE_WRITES + TREE_OPS; ++i) {
+        const unsigned op = i < TREE_WRITES ? 0 : pick(3, "op");
+        const int site = 2 * (int)pick(SITES, "site");
+        if (op == 0) { w.write(site, 1, true); vf_reach("write"); }
+        else if (op == 1) vf_assert(w.has(site, site + 1) == w.m.present[site], "a byte is in memory iff it was written and not released");
+        else w.release(site + 1);
+    }
+    w.probe();
+    w.finalChecks();
+    vf_reach("done");
+    WITNESS_POINT();
+}
+
 // ---------------------------------------------------------------- independent symbolic offsets
 #ifdef VF_THOROUGH
 #define NW 3
+#define RD 5
 #else
 #define NW 2
+#define RD 3
 #endif
 extern "C" void c49_sparse(void)
 {
@@ -149,7 +182,7 @@ extern "C" void c49_sparse(void)
     const int64_t LIM = 3 * PAGE + 8;
     int64_t off[NW]; int len[NW]; uint8_t data[NW][2];
     for (int i = 0; i < NW; ++i) {
-        off[i] = (int64_t)vf_nondet_u64("offset"); vf_assume(off[i] >= 0 && off[i] <= LIM);
+        off[i] = (int64_t)vf_nondet_u16("offset"); vf_assume(off[i] >= 0 && off[i] <= LIM);
         len[i] = 1 + (int)pick(2, "len");
         for (int j = 0; j < i; ++j) vf_assume(off[i] + len[i] <= off[j] || off[j] + len[j] <= off[i]); // non-overlapping
         for (int k = 0; k < len[i]; ++k) data[i][k] = vf_nondet_u8("data");
@@ -158,7 +191,7 @@ extern "C" void c49_sparse(void)
     // reference: byte q is in memory iff some write covers it and it is not below the cut reported by freeDataUpto()
     int64_t cut = 0;
     if (vf_bool("release")) {
-        const int64_t t = (int64_t)vf_nondet_u64("upto"); vf_assume(t >= 0 && t <= LIM + 8);
+        const int64_t t = (int64_t)vf_nondet_u16("upto"); vf_assume(t >= 0 && t <= LIM + 8);
         cut = hdr.freeDataUpto(t);
         bool cutIsWritten = false;
         for (int i = 0; i < NW; ++i) {
@@ -168,24 +201,24 @@ extern "C" void c49_sparse(void)
         vf_assert(cutIsWritten, "freeDataUpto() returns the offset of a written range");
         vf_reach("released-or-kept");
     }
-    const int64_t q = (int64_t)vf_nondet_u64("probe"); vf_assume(q >= 0 && q <= LIM + 8);
-    // run of present bytes starting at q (at most 4)
-    int run = 0; bool open = true; uint8_t expect[4];
-    for (int j = 0; j < 4; ++j) {
+    const int64_t q = (int64_t)vf_nondet_u16("probe"); vf_assume(q >= 0 && q <= LIM + 8);
+    // run of present bytes starting at q (at most RD)
+    int run = 0; bool open = true; uint8_t expect[RD];
+    for (int j = 0; j < RD; ++j) {
         bool here = false;
         for (int i = 0; i < NW; ++i) for (int k = 0; k < len[i]; ++k) if (off[i] + k == q + j && q + j >= cut) { here = true; expect[j] = data[i][k]; }
         open = open && here;
         if (open) ++run;
     }
-    for (int n = 0; n <= 4; ++n)
+    for (int n = 0; n <= RD; n += n ? 2 : 1) // n = 0, 1, 3 (, 5)
         vf_assert(hdr.hasContigousContentRange(Range<int64_t>(q, q + n)) == (run >= n), "hasContigousContentRange() iff every byte of the range is in memory");
     if (run > 0) {
-        char out[6] = {'#', '#', '#', '#', '#', '#'};
-        const ssize_t got = hdr.copy(StoreIOBuffer(4, q, out + 1));
+        char out[RD + 2]; for (int j = 0; j < RD + 2; ++j) out[j] = '#';
+        const ssize_t got = hdr.copy(StoreIOBuffer(RD, q, out + 1));
         vf_assert(got == run, "copy() returns the bytes up to the first missing byte");
         for (int j = 0; j < run; ++j) vf_assert((uint8_t)out[1 + j] == expect[j], "copy() returns exactly the written bytes");
         vf_assert(out[0] == '#' && out[1 + run] == '#', "copy() writes nothing beyond what it returns");
-        vf_reach(run < 4 ? "short-read" : "full-read");
+        vf_reach(run < RD ? "short-read" : "full-read");
     } else
         vf_reach("absent");
     vf_observe("run", run);
